@@ -104,8 +104,10 @@ def _(prop, case, v):
     if case["kind"] != "hist":
         return False
     if v.get("sig") == "update-changed-key":
-        # only an update that names the key attribute itself as the target of an action
-        return "step" in v and targets_key_attr(case, case["ops"][v["step"]])
+        # only an update that names the key attribute itself as the target of an action — or a later update of
+        # an item whose key attributes such an update changed before
+        return "step" in v and (targets_key_attr(case, case["ops"][v["step"]]) or
+                                key_changing_update_before(case, v.get("sdk", "v2"), v["step"], case["ops"][v["step"]].get("table")))
     # every later read of that table sees an item whose key attributes no longer identify it
     return v.get("sig") in ("stored-key-differs", "get-mismatch", "search-content", "index-content", "pages-content", "pages-duplicate",
                             "pages-unbounded", "pages-unfinished", "pages-lost-after-delete", "order", "describe-index-count",
